@@ -176,7 +176,10 @@ def run_case(case):
             acc.cov["far_pairs"] += 1
             iw = spec.get("iwc") or {}
             iv = [str(x) for x in (iw.get("value") or ["FC"])]
-            feats = dict(fc_start=bool(iw.get("wc_type", "Prop") == "Prop" and "FC" in iv),
+            d_init = float(np.max(np.abs(res.trace.init["th_init"] - res2.trace.init["th_init"]))) \
+                if len(res.trace.init["th_init"]) == len(res2.trace.init["th_init"]) else 1.0
+            feats = dict(fc_is_last_value=bool(iw.get("wc_type", "Prop") == "Prop" and iv[-1] == "FC"),
+                         initial_content_differs_by_rounding_only=bool(d_init <= 5.0e-4),
                          fc_finer_than_3_decimals=bool(fine_values(spec)))
             names = ("water_flux", "water_storage", "crop_growth")
             for name, a, b in zip(names, res.tables, res2.tables):
